@@ -173,6 +173,27 @@ PLAN['C08'] = {
 KEYS_ORDER_ABSENT = None
 
 
+def join_obs(res, every=1):
+    """edges and per-state observations are dumped separately (see
+    MC_Registry.Emit); attach each edge's successor observation."""
+    obs = {}
+    edges = []
+    for r in res.lines:
+        if r.get('kind') == 'obs':
+            obs[json.dumps(r['key'], sort_keys=True)] = r['obs']
+        else:
+            edges.append(r)
+    for i, e in enumerate(edges):
+        k = json.dumps(e['to'], sort_keys=True)
+        if k not in obs:
+            # successor beyond the depth bound: never expanded, not probed
+            e['obs'] = None
+        else:
+            e['obs'] = obs[k]
+    res.lines = edges
+    res.n_obs = len(obs)
+
+
 def flavour_of(consts):
     return consts['Flavour'].strip('"')
 
@@ -242,18 +263,19 @@ def main(pid, tier):
             elif kind == 'edges':
                 cfg = make_cfg(build.dir, 'reg', consts, view='View',
                                constraint='Bound', action_constraint='Emit',
-                               invariants=INVS)
+                               invariants=INVS + ['DumpObs'])
                 res = run_tlc('MC_Registry', cfg, scratch=build.dir,
                               timeout=3000,
                               workers=1 if tier == 'quick' else None)
+                join_obs(res)
             else:
-                cfg = make_cfg(build.dir, 'reg', dict(consts, ObsEvery=5),
-                               view='View',
+                cfg = make_cfg(build.dir, 'reg', consts, view='View',
                                constraint='Bound', action_constraint='Emit',
-                               invariants=INVS)
+                               invariants=INVS + ['DumpObs'])
                 res = run_tlc('MC_Registry', cfg, scratch=build.dir,
                               simulate=opt['num'], depth=opt['depth'],
                               seed_=seed(), timeout=3000)
+                join_obs(res, every=4)
             label = '%s [%s]' % (name, flav)
             v.add_tlc(res, label)
             if res.violated:
@@ -292,6 +314,8 @@ def main(pid, tier):
                 cases = []
                 for e in edges:
                     path = tree[e['_fk']] + [e]
+                    if e['obs'] is None:
+                        continue
                     steps = [{'act': x['act']} for x in path[:-1]]
                     steps.append({'act': e['act'], 'obs': e['obs']})
                     cases.append({'steps': steps,
@@ -312,7 +336,7 @@ def main(pid, tier):
                     steps = []
                     for i, x in enumerate(beh):
                         st = {'act': x['act']}
-                        if x['obs']:
+                        if (i % 4 == 3 or i == len(beh) - 1) and x['obs']:
                             st['obs'] = x['obs']
                         steps.append(st)
                     cases.append({'steps': steps,
